@@ -217,10 +217,12 @@ def expected_result(kind, specs):
         name = parts[0]
         args = [unhexs(a).decode() for a in parts[1:]]
         line = " ".join([name] + args)
-        if name == "fail":
+        if name in ("fail", "pfail"):
+            # pfail: the command had already written part of its output when it failed; that partial frame is not a frame of a
+            # command that succeeded, so the caller must not see it
             code = int(args[0]) if args else 50
             shown = [] if kind == "c" else frames
-            return f"ack({code},{idx},{hexs('fail')},{hexs('boom')})[{'/'.join(shown)}]"
+            return f"ack({code},{idx},{hexs(name)},{hexs('boom')})[{'/'.join(shown)}]"
         if name == "bin":
             frames.append(f"()bin={hexs(payload(int(args[0])))}")
         elif name in ("update", "rescan"):
@@ -242,7 +244,7 @@ def gen_request(rng, rid, allow_fail=True, allow_bin=True):
     for k in range(n):
         r = rng.random()
         if allow_fail and r < 0.12:
-            specs.append(spec("fail", str(rng.choice([1, 2, 5, 50])), f"r{rid}c{k}"))
+            specs.append(spec(rng.choice(["fail", "fail", "pfail"]), str(rng.choice([1, 2, 5, 50])), f"r{rid}c{k}"))
         elif allow_bin and r < 0.22:
             specs.append(spec("bin", str(rng.choice([0, 1, 3, 20, 5000])), f"r{rid}c{k}"))
         else:
